@@ -397,6 +397,19 @@ func (op *HOp) render() string {
 			return "tmpv = " + op.Op[3:] + op.T.String()
 		}
 		return op.T.String() + op.Op[4:]
+	case "match-assign":
+		// a name bound by an array pattern is assigned inside the case body: the
+		// name is a variable of the case, not the matched element
+		names2 := make([]string, op.Idx)
+		for i := range names2 {
+			names2[i] = fmt.Sprintf("mc%d", i)
+		}
+		tgt := names2[int(op.Num)%len(names2)]
+		stmt := tgt + " = " + litText(op.Lit)
+		if op.Op == "++" {
+			stmt = tgt + "++"
+		}
+		return fmt.Sprintf("match (%s) { [%s] => { %s } }", op.T.String(), strings.Join(names2, ", "), stmt)
 	case "match-early":
 		// an array-pattern case whose body is left with continue / break; then a
 		// variable named like one of the bound names is assigned
@@ -872,6 +885,18 @@ func (h *Heap) apply(op *HOp) (string, error) {
 	case "incdec-refused":
 		if err := h.refusedOK(op); err != nil {
 			return "", err
+		}
+		return "", nil
+	case "match-assign":
+		v, err := h.readPath(op.T)
+		if err != nil {
+			return "", err
+		}
+		if v.K != 'a' || len(v.Arr.Items) != op.Idx || op.Idx == 0 {
+			return "", errUnsupported{"needs an array of exactly that many elements"}
+		}
+		if el := v.Arr.Items[int(op.Num)%op.Idx].V; el.isContainer() || (op.Op == "++" && el.K != 'n' && el.K != 'z') {
+			return "", errUnsupported{"the element bound to the assigned name must be a scalar (containers are shared)"}
 		}
 		return "", nil
 	case "match-early":
@@ -1637,6 +1662,9 @@ func genHeapCase(t *Tape, maxOps int) *HeapCase {
 				n = len(v.Arr.Items)
 			}
 			op = HOp{Kind: "match-early", T: p, Idx: n, Fn: []string{"continue", "break"}[t.Draw(2)]}
+			if t.Chance(1, 2) {
+				op = HOp{Kind: "match-assign", T: p, Idx: n, Num: float64(t.Draw(4)), Lit: heapScalarLits[t.Draw(len(heapScalarLits))], Op: []string{"=", "++"}[t.Draw(2)]}
+			}
 		case 18:
 			op = HOp{Kind: "self-chain", T: genHeapPath(t, h, c.Vars, true), Op: []string{"pre++", "pre--", "post++", "post--", "+", "-", "*", "+&", "-&", "+&"}[t.Draw(10)], Num: float64(1 + t.Draw(9))}
 		case 17:
@@ -1919,6 +1947,9 @@ func (h *Heap) dryRun(op *HOp) error {
 			return errUnsupported{"needs an array of exactly that many elements"}
 		}
 		return nil
+	case "match-assign":
+		_, err := h.apply(op) // validates only
+		return err
 	case "assign-lit":
 		return h.prevalidateWrite(op.T)
 	case "assign-path":
